@@ -156,6 +156,54 @@ pub fn check_pair(a: &[&str], b: &[&str]) -> Vec<Finding> {
     out
 }
 
+/// Pairs in which the parent's first label has length L and the candidate's first label ends with
+/// the byte L followed by the parent's first label: their wire encodings share a byte suffix that is
+/// not aligned on a label boundary. Same label count, so never a subdomain.
+pub fn check_wire_suffix(l: usize, extra_labels: usize) -> Vec<Finding> {
+    let case = json!({"kind": "wire-suffix", "l": l, "extra": extra_labels});
+    let r = guarded(|| {
+        let tail: Vec<Vec<u8>> = (0..extra_labels).map(|i| vec![b'a' + i as u8; 3 + i]).collect();
+        let parent_first = vec![b'a'; l];
+        let mut cand_first = vec![b'b'];
+        cand_first.push(l as u8);
+        cand_first.extend_from_slice(&parent_first);
+        let mk_name = |first: &Vec<u8>, lead: Option<&[u8]>| {
+            let mut ls: Vec<Label> = Vec::new();
+            if let Some(x) = lead {
+                ls.push(Label::new_unchecked(x.to_vec()));
+            }
+            ls.push(Label::new_unchecked(first.clone()));
+            for t in &tail {
+                ls.push(Label::new_unchecked(t.clone()));
+            }
+            Name::new_with_labels(&ls)
+        };
+        let parent = mk_name(&parent_first, None);
+        let cand = mk_name(&cand_first, None);
+        let cand2 = mk_name(&cand_first, Some(b"www"));
+        let mut bad: Vec<(String, String)> = Vec::new();
+        if cand.is_subdomain_of(&parent) || cand.without(&parent).is_some() {
+            bad.push(("wire-suffix-subdomain".into(), format!("label length {}: a name with the same number of labels is reported as a subdomain (its encoding merely ends with the parent's bytes)", l)));
+        }
+        if cand2.is_subdomain_of(&parent) || cand2.without(&parent).is_some() {
+            bad.push(("wire-suffix-subdomain".into(), format!("label length {}: www.<label ending in the parent's bytes> is reported as a subdomain", l)));
+        }
+        if parent.is_subdomain_of(&cand) || cand == parent {
+            bad.push(("wire-suffix-reverse".into(), "reverse relation wrong".into()));
+        }
+        // the true relations still hold
+        let child = mk_name(&parent_first, Some(b"www"));
+        if !child.is_subdomain_of(&parent) || child.without(&parent).map(|n| n.get_labels().len()) != Some(1) {
+            bad.push(("true-subdomain-lost".into(), format!("label length {}: www.parent not recognised", l)));
+        }
+        bad
+    });
+    match r {
+        Err(pn) => vec![finding(format!("C17|wire-suffix|{}", pn.sig()), format!("{:?}", pn), case)],
+        Ok(bad) => bad.into_iter().map(|(t, d)| finding(format!("C17|pair|{}", t), d, case.clone())).collect(),
+    }
+}
+
 pub fn check_local(labels: &[String]) -> Vec<Finding> {
     let case = json!({"kind": "local", "labels": labels});
     let exp = labels.last().map(|l| l.eq_ignore_ascii_case("local")).unwrap_or(false);
@@ -305,6 +353,14 @@ pub fn run(ctx: &Ctx) {
     t.outcome("pair");
     ctx.space(&format!("all pairs of the {} names with <= {} labels over {{a,b}}", names.len(), ctx.tier.pick(4, 5)), (names.len() * names.len()) as u64, "complete");
     ctx.sample(json!({"kind": "pair", "a": ["a", "b", "a"], "b": ["b", "a"]}));
+    for l in 1..=61usize {
+        for extra in 0..=2usize {
+            t.evals += 1;
+            t.nontrivial += 1;
+            ctx.violations(check_wire_suffix(l, extra));
+        }
+    }
+    ctx.space("wire-suffix pairs: for every label length 1..=61, a same-depth name whose first label ends with that length byte followed by the parent's first label (0..=2 further labels)", 61 * 3, "complete");
     // space 4: link-local
     let mut lasts: Vec<String> = Vec::new();
     for m in 0..32u32 {
@@ -351,6 +407,7 @@ pub fn replay(case: &Value) -> Vec<Finding> {
             let b: Vec<&str> = b.iter().map(|s| s.as_str()).collect();
             check_pair(&a, &b)
         }
+        "wire-suffix" => check_wire_suffix(case["l"].as_u64().unwrap_or(1) as usize, case["extra"].as_u64().unwrap_or(0) as usize),
         "local" => {
             let l: Vec<String> = case["labels"].as_array().map(|a| a.iter().map(|x| x.as_str().unwrap_or("").to_string()).collect()).unwrap_or_default();
             check_local(&l)
